@@ -9,11 +9,13 @@ head = sh("git -C /repo rev-parse HEAD").stdout.strip()
 if not os.path.isdir(W):
     sh(f"git -C /repo worktree add --detach {W} HEAD")
 sh(f"git -C {W} checkout -q --detach {head}; git -C {W} checkout -- .; git -C {W} clean -fdq")
-only = sys.argv[1:] 
+OUTDIR = os.environ.get("SEED_OUTDIR", "_out")
+OFFSET = int(os.environ.get("SEED_OFFSET", "0"))
+only = sys.argv[1:]
 results = []
-for diff in sorted(glob.glob("/tmp/wt/C*/_out/mut*.diff")):
+for diff in sorted(glob.glob(f"/tmp/wt/C*/{OUTDIR}/mut*.diff")):
     prop = diff.split("/")[3]; n = re.search(r"mut(\d+)", diff).group(1)
-    sid = f"{prop}-{n}"
+    sid = f"{prop}-{int(n) + OFFSET}"
     if only and sid not in only and prop not in only: continue
     demo = diff.replace(f"mut{n}.diff", f"demo{n}.py"); notes = diff.replace(f"mut{n}.diff", f"notes{n}.md")
     r = {"id": sid, "property": prop}
